@@ -131,8 +131,25 @@ def body_later_line(h):
     return [_geti(impl, b'C%'), _geti(impl, b'L%')]
 
 
+def body_layouts(h):
+    """DATA behind two-byte function tokens on the same line, quoted items, unclosed quote at line end"""
+    prog = [b'10 X!=FRE(0): DATA 5', b'20 DATA "a,b", "cde', b'30 DATA 7: X%=1: DATA 8',
+            b'40 READ A%,B$,C$,D%,F%: L%=LEN(B$): M%=LEN(C$): P%=ASC(MID$(C$,3)): E%=S%: END']
+    impl = _setup(h, prog, [b'A%', b'D%', b'F%', b'L%', b'M%', b'P%', b'E%', b'S%', b'X%'])
+    s = h.bytes('s', 2)
+    session.poke_int(h, impl, b'S%', s)
+    impl.execute(b'GOTO 40')
+    h.require('data-after-function-token-found', _geti(impl, b'A%') == 5)
+    h.require('quoted-item-with-comma', _geti(impl, b'L%') == 3)
+    h.require('unclosed-quoted-item-complete', s_and(_geti(impl, b'M%') == 3, _geti(impl, b'P%') == 101))
+    h.require('data-after-other-statement-on-line', s_and(_geti(impl, b'D%') == 7, _geti(impl, b'F%') == 8))
+    h.require('completed', s_and(_geti(impl, b'E%') == s16(s), impl.interpreter.error_num == 0))
+    return [_geti(impl, b'A%'), _geti(impl, b'M%')]
+
+
 def cases(tier):
     return [Case('order-and-restore', body_order),
             Case('string-item', body_string_item, timeout_s=1500),
             Case('numeric-item', body_numeric_item, timeout_s=1500, max_fanout=400),
-            Case('bad-item-in-later-line', body_later_line, timeout_s=1500, max_fanout=400)]
+            Case('bad-item-in-later-line', body_later_line, timeout_s=1500, max_fanout=400),
+            Case('data-layouts', body_layouts)]
